@@ -13,7 +13,7 @@ Definition covered (c : cmd) : bool :=
   match c with
   | CHset _ _ _ _ | CHmset _ _ | CHdel _ _ | CHincrby _ _ _ | CHclear _
   | QHlen _ | QHget _ _ | QHexists _ _ | QHmget _ _ | QHgetall _ | QHkeys _ | QHvals _ | QHkeyexist _
-  | CSadd _ _ | CSrem _ _ | CSclear _
+  | CSadd _ _ | CSrem _ _ | CSpop _ _ | CSclear _
   | QScard _ | QSismember _ _ | QSmembers _ | QSrandmember _ _ | QSkeyexist _ => true
   | CK (KCsetrange _ off _) => 0 <=? off
   | CK _ | QK _ => true
@@ -114,6 +114,7 @@ Section Seq.
     - destruct (LH key) as [R1 S1]. destruct (hash_reads_ref compact clock key _ _ R1 S1) as (_ & _ & _ & _ & _ & _ & _ & a). cbn [fst snd]. split; [exact a|exact Keep].
     - destruct (LS key) as [R1 S1]. apply SW; [apply (sadd_ref compact clock); auto|exact Rn].
     - destruct (LS key) as [R1 S1]. apply SW; [apply (srem_ref compact clock); auto|exact Rn].
+    - destruct (LS key) as [R1 S1]. apply SW; [apply (spop_ref compact clock); auto|exact Rn].
     - destruct (LS key) as [R1 S1]. apply SW; [apply (sclear_ref compact clock); auto|exact Rn].
     - destruct (LS key) as [R1 S1]. destruct (set_reads_ref compact clock key _ _ R1 S1) as (a & _). cbn [fst snd]. split; [exact a|exact Keep].
     - destruct (LS key) as [R1 S1]. destruct (set_reads_ref compact clock key _ _ R1 S1) as (_ & a & _). cbn [fst snd]. split; [apply a|exact Keep].
